@@ -116,7 +116,7 @@ fn run(s: &[i128]) -> Vec<i128> {
             .minimum_number_of_calls(zn(s, 3).max(0) as usize)
             .failure_rate_threshold(zn(s, 4) as f64 / zn(s, 5) as f64)
             .slow_call_rate_threshold(zn(s, 8) as f64 / zn(s, 9) as f64)
-            .wait_duration_in_open(Duration::from_millis(zn(s, 10).max(0) as u64))
+            .wait_duration_in_open(if zn(s, 10) >= 1_000_000_000_000_000 { Duration::MAX } else { Duration::from_millis(zn(s, 10).max(0) as u64) })
             .permitted_calls_in_half_open(zn(s, 11).max(0) as usize);
         if zn(s, 6) != 0 {
             b = b.slow_call_duration_threshold(Duration::from_millis(zn(s, 7).max(0) as u64));
